@@ -60,7 +60,12 @@ def get_inherited(t: Type) -> Type:
         # Get us back to typing if this is a common interface.
         # This is not needed in python 3.11 and forward, where
         # collections.abc.X can are all be parameterized.
-        if r_base.__name__ in typing.__dict__:
+        # (Only for those: a class of the user's that happens to be called `Container` or
+        # `Collection` is not the one in `typing`.)
+        if (
+            getattr(r_base, "__module__", None) == "collections.abc"
+            and r_base.__name__ in typing.__dict__
+        ):
             r_base = typing.__dict__[r_base.__name__]
 
         # Re-parameterize the type with the information e have from this parameterization.
